@@ -447,7 +447,10 @@ def run(ctx: Ctx) -> None:
         sp = realise(sc, rng)
         cases.append((sc, sp, kk))
     # N = 4: generated here (random geometry or user matrix), requirement from the python twin
-    for _ in range(ctx.pick(120, 1500)):
+    n4_target = len(cases) + ctx.pick(120, 1500)
+    for _ in range(20000):
+        if len(cases) >= n4_target:
+            break
         custom = rng.random() < 0.5
         up = upairs(4)
         coords = [[round(rng.uniform(0, 14), 3), round(rng.uniform(0, 14), 3)] for _ in range(4)]
